@@ -118,8 +118,7 @@ def run(ctx):
             if n0[0] == "call" and n0[1].endswith("::len") and is_param(n0[2][0], 3):
                 okn = True
                 # requires the decision id >= len(ss) false
-            if n0[0] == "field" and n0[1][0] == "binop" and n0[1][1] in ("AddWithOverflow", "Add") and \
-                    strip(n0[1][2]) == sid and n0[1][3][0] == "const" and n0[1][3][3] == 1:
+            if n0[0] == "binop" and n0[1] == "Add" and strip(n0[2]) == sid and n0[3][0] == "const" and n0[3][3] == 1:
                 okn = True
             if n0[0] == "binop" and n0[1] == "Add" and strip(n0[2]) == sid and n0[3][3] == 1:
                 okn = True
